@@ -232,3 +232,37 @@ EXTRA_CHECKS = [
         "about 2200 (thorough 16800) gradient coordinates against Richardson-extrapolated central differences: fit criterion of 16 kernel / mean / warping / Box-Cox combinations (n 5..8, d 1..3, lambda in {0, 1e-8, 0.5, -0.7, ...}), custom_op backward passes on SPD matrices of size 1..5, EI / LCB / EIpu / CEI through compute_acq_with_gradient on fitted GP predictors with and without fantasies and MCMC, and an analytic stub predictor",
     )
 ]
+
+
+# -- EIpu where the cost model predicts a non-positive cost: the clamp at MIN_COST applies on BOTH paths, so the value computed
+#    alone still equals the value computed with the gradient (the gradient itself is not claimed inside the clamp) ------------
+
+
+@contract(IMPL + ":EIpuAcquisitionFunction._compute_head_and_gradient", props=("C09",), unbounded=False, calculus=True)
+class EIpu_head_value_inside_the_cost_clamp:
+    label = "EIpuAcquisitionFunction._compute_head_and_gradient(cost clamp)"
+    params = dict(self=Obj("EIpu"), output_to_predictions=Rec(active=Rec(mean=Arr(Real), std=Arr(Real)), second=Rec(mean=Arr(Real))), current_best=Arr(Real))
+    shapes = [
+        {"output_to_predictions[active][mean]": [nf], "output_to_predictions[active][std]": [1], "output_to_predictions[second][mean]": [nc], "current_best": [nf]}
+        for nf, nc in ((1, 1), (2, 2))
+    ]
+
+    def requires(s):
+        P = s.output_to_predictions
+        return {
+            "metrics": s.self.active_metric == "active" and s.self.cost_metric == "second",
+            "exponent": 0 < s.self.exponent_cost and s.self.exponent_cost <= 1,
+            "std-above-the-clamp": P["active"]["std"][0] > 1e-10,
+            "some-predicted-cost-at-or-below-the-clamp": any(c <= 1e-12 for c in P["second"]["mean"]),
+        }
+
+    def ensures(old, s, result):
+        acq = old.self
+        P = old.output_to_predictions
+        PA, PC = P["active"], P["second"]
+        best = old.current_best
+        return {
+            "value-alone-equals-value-with-gradient": analytic_eq(
+                acq._compute_head({"active": {"mean": PA["mean"].reshape((1, -1)), "std": PA["std"].reshape((1, 1))}, "second": {"mean": PC["mean"].reshape((1, -1))}}, best.reshape((1, -1))), result.hval
+            ),
+        }
